@@ -25,15 +25,35 @@ pub struct SCase {
     /// number of -v flags
     #[serde(default)]
     pub verbose: u8,
+    /// height of the first block (C16: heights of 9, 10 digits in the line format)
+    #[serde(default)]
+    pub base: u64,
+    /// k > 0: in every k-th block the outputs of the first non-coinbase transaction become further outputs of the
+    /// block's coinbase transaction (miners put commitments and tags there; position must not matter)
+    #[serde(default)]
+    pub cb_every: u8,
 }
 
 fn scase(coins: Vec<Coin>, script: BS<Vec<u8>>, nscripts: std::ops::Range<usize>, ranges: bool) -> BS<SCase> {
     let r = if ranges { prop_oneof![2 => Just(None), 1 => (any::<u16>(), any::<u16>()).prop_map(Some)].boxed() } else { Just(None).boxed() };
-    (proptest::sample::select(coins), proptest::collection::vec(script, nscripts), 1u8..6, 1u8..8, r, prop_oneof![4 => Just(0u8), 1 => Just(1u8), 1 => Just(2u8)]).prop_map(|(coin, scripts, per_tx, txs_per_block, range, verbose)| SCase { coin, scripts, per_tx, txs_per_block, range, verbose }).boxed()
+    (proptest::sample::select(coins), proptest::collection::vec(script, nscripts), 1u8..6, 1u8..8, r, prop_oneof![4 => Just(0u8), 1 => Just(1u8), 1 => Just(2u8)]).prop_map(|(coin, scripts, per_tx, txs_per_block, range, verbose)| SCase { coin, scripts, per_tx, txs_per_block, range, verbose, base: 0, cb_every: 0 }).boxed()
 }
 
 fn build(c: &SCase) -> vpmodel::spec::Built {
-    chain_from_scripts(c.coin, &c.scripts, &[0, 1, 546, 100_000, 5_000_000_000, 123_456_789], c.per_tx as usize, c.txs_per_block as usize, 0, 1_300_000_000).build()
+    let mut spec = chain_spec(c);
+    if c.cb_every > 0 {
+        for (k, b) in spec.blocks.iter_mut().enumerate() {
+            if k % c.cb_every as usize == 0 && !b.txs.is_empty() {
+                let t = b.txs.remove(0);
+                b.coinbase.outputs.extend(t.outputs);
+            }
+        }
+    }
+    spec.build()
+}
+
+fn chain_spec(c: &SCase) -> vpmodel::spec::ChainSpec {
+    chain_from_scripts(c.coin, &c.scripts, &[0, 1, 546, 100_000, 5_000_000_000, 123_456_789], c.per_tx as usize, c.txs_per_block as usize, c.base, 1_300_000_000)
 }
 
 // ------------------------------------------------------------------------------------------ C05
@@ -186,7 +206,7 @@ fn replay_c06(part: &str, case: serde_json::Value) -> Option<Verdict> {
 pub const C16: PropDef = PropDef {
     id: "C16",
     level: "exploration",
-    rule: "E1: chains on all 8 coins whose outputs are OP_RETURN + exactly one push in each encoding (direct 1..75, PUSHDATA1 incl. 76..80 and 255, PUSHDATA2, PUSHDATA4; zero-length pushes) with payload classes ASCII / multi-byte UTF-8 / invalid UTF-8 / empty / containing newlines, mixed with every non-OP_RETURN script class, several per tx and per block, with and without --start/--end. stdout minus log lines must equal, byte for byte, the model's lines 'height: H txid: T    data: PAYLOAD' in chain order (bitcoin/testnet3: only non-empty valid UTF-8; fork coins: every non-empty payload, lossily decoded). Non-trivial = a payload needing PUSHDATA1/2/4, or invalid UTF-8, or >=2 printed lines in one tx; distinct by (coin class, push forms, payload classes) hash of the script list.",
+    rule: "E1: chains on all 8 coins whose outputs are OP_RETURN + exactly one push in each encoding (direct 1..75, PUSHDATA1 incl. 76..80 and 255, PUSHDATA2, PUSHDATA4; zero-length pushes) with payload classes ASCII / multi-byte UTF-8 / invalid UTF-8 / empty / containing newlines, mixed with every non-OP_RETURN script class, several per tx and per block, with and without --start/--end. stdout minus log lines must equal, byte for byte, the model's lines 'height: H txid: T    data: PAYLOAD' in chain order (bitcoin/testnet3: only non-empty valid UTF-8; fork coins: every non-empty payload, lossily decoded). Non-trivial = a payload needing PUSHDATA1/2/4, or invalid UTF-8, or >=2 printed lines in one tx; distinct by (coin class, push forms, payload classes) hash of the script list. Heights of 8..10 digits (base heights up to 2^31) are a class; in a third of the cases the outputs of some transactions are moved into the block's coinbase transaction; payloads starting with well-known protocol markers (aa21a9ed + 32 bytes, omni, RSKBLOCK:, ...) are a class.",
     assumptions: &["OP_RETURN scripts of other shapes are not generated here (the statement leaves their text open; totality for them is C14)", "generated payloads never contain a substring that looks like a log-line prefix"],
     run: run_c16,
     replay: replay_c16,
@@ -194,18 +214,21 @@ pub const C16: PropDef = PropDef {
 
 fn c16_strategy(tier: Tier) -> BS<SCase> {
     let n = if tier == Tier::Quick { 5..80 } else { 5..300 };
-    scase(vpmodel::chain::ALL_COINS.to_vec(), gen::c16_script(tier), n, true)
+    // heights of 8..10 digits (the line pads the height to 9 columns; heights are an `int` in Bitcoin Core)
+    let base = prop_oneof![12 => Just(0u64), 1 => Just(99_999_990u64), 1 => Just(999_999_995u64), 1 => Just((1u64 << 31) - 500), 1 => 1_000_000_000u64..(1u64 << 31) - 500];
+    (scase(vpmodel::chain::ALL_COINS.to_vec(), gen::c16_script(tier), n, true), base, prop_oneof![2 => Just(0u8), 1 => 1u8..4]).prop_map(|(mut c, base, cb_every)| { c.base = base; c.cb_every = cb_every; c }).boxed()
 }
 
 pub fn check_c16(c: &SCase) -> Verdict {
     let built = build(c);
-    let tip = built.tip();
+    let (base, tip) = (built.base(), built.tip());
     let (start, end) = match c.range {
-        Some((a, b)) if tip >= 1 => {
-            let s = (a as u64 * tip) >> 16; // 0..tip-1
+        Some((a, b)) if tip > base => {
+            let s = base + ((a as u64 * (tip - base)) >> 16); // base..tip-1
             let e = s + 1 + ((b as u64 * (tip + 2 - s - 1)) >> 16);
             (Some(s), Some(e))
         }
+        _ if base > 0 => (Some(base), None),
         _ => (None, None),
     };
     let s = start.unwrap_or(0);
